@@ -185,7 +185,7 @@ CLAIMS['C10'] = (
 CLAIMS['C06'] = (
     'exploration',
     'exhaustive enumeration of build scripts (<=2 steps) x configuration product; pairwise differential between the Make build, the Ninja build (refninja) and compile_commands.json, observed through the recording stub toolchain',
-    'Every program of the typed enumeration (427 with <=2 steps) x 2 (quick) / 24 (thorough) configurations (library '
+    'Every program of the typed enumeration (610 with <=2 steps) x 2 (quick) / 24 (thorough) configurations (library '
     'mode, prefix with a space, global options, CFLAGS/CPPFLAGS/LDFLAGS/LDLIBS) is configured for both backends from '
     'one script. Compared without expected values: buildable target sets (Make database vs manifest, helper nodes '
     'contracted); per step the program, arguments, working directory and environment actually received; the set of '
